@@ -657,8 +657,79 @@ func errValueUsed(v ssa.Value) bool {
 				continue
 			}
 			return true
+		case *ssa.BinOp:
+			// a comparison counts when some branch on it has a consequence
+			if isNilConst(x.X) || isNilConst(x.Y) {
+				if valueOnlyInVacuousTests(x) {
+					continue
+				}
+			}
+			return true
 		default:
 			return true
+		}
+	}
+	return false
+}
+
+// valueOnlyInVacuousTests: every use of the boolean v is a branch whose two outcomes run the same code — one successor is an
+// empty block that jumps straight to the other successor (an `if err != nil { }` whose body was lost).
+func valueOnlyInVacuousTests(v ssa.Value) bool {
+	refs := v.Referrers()
+	if refs == nil {
+		return false
+	}
+	// (go/ssa drops a branch whose successors coincide altogether: the comparison is then left without any use)
+	for _, ref := range *refs {
+		switch x := ref.(type) {
+		case *ssa.DebugRef:
+		case *ssa.If:
+			if !vacuousIf(x) {
+				return false
+			}
+		default:
+			return false
+		}
+	}
+	return true
+}
+
+func vacuousIf(iff *ssa.If) bool {
+	b := iff.Block()
+	if len(b.Succs) != 2 {
+		return false
+	}
+	for k := 0; k < 2; k++ {
+		s, o := b.Succs[k], b.Succs[1-k]
+		if s == o {
+			return true
+		}
+		if len(s.Instrs) == 1 && len(s.Preds) == 1 {
+			if _, isJ := s.Instrs[0].(*ssa.Jump); isJ && s.Succs[0] == o {
+				// the join must not tell the ways apart through a phi
+				differs := false
+				for _, ins := range o.Instrs {
+					ph, ok := ins.(*ssa.Phi)
+					if !ok {
+						break
+					}
+					var vs, vb ssa.Value
+					for pi, pr := range o.Preds {
+						if pr == s {
+							vs = ph.Edges[pi]
+						}
+						if pr == b {
+							vb = ph.Edges[pi]
+						}
+					}
+					if vs != vb {
+						differs = true
+					}
+				}
+				if !differs {
+					return true
+				}
+			}
 		}
 	}
 	return false
